@@ -160,6 +160,56 @@ fn noninterference(ctx: &mut Ctx, b: &[u8], o: SOpts, spec: &sdec::Decoded, base
     if free.is_empty() {
         return;
     }
+    // free-field sweep: a 16-bit field the reference never consults (the attribute type or the
+    // payload of a vendor-specific AVP, reserved octets, octets past a declared end) is walked
+    // through all small values and the usual boundary values
+    if ctx.rng.chance(1, 16) {
+        let mut fields: Vec<usize> = Vec::new();
+        let m = &spec.care.mask;
+        let mut i = 0;
+        while i + 1 < m.len() && fields.len() < 64 {
+            if m[i] == 0 && m[i + 1] == 0 {
+                fields.push(i);
+                i += 2;
+            } else {
+                i += 1;
+            }
+        }
+        if !fields.is_empty() {
+            let at = *ctx.rng.pick(&fields);
+            ctx.rep.bucket("noninterference.field_sweeps");
+            let mut vals: Vec<u16> = (0u16..=255).collect();
+            vals.extend_from_slice(&[256, 311, 529, 1023, 1024, 0x7fff, 0x8000, 0xfffe, 0xffff]);
+            for v in vals {
+                let mut b2 = b.to_vec();
+                b2[at] = (v >> 8) as u8;
+                b2[at + 1] = v as u8;
+                if b2 == b {
+                    continue;
+                }
+                let run2 = exec::decode_msg(&b2, Some(o), Rk::Slice);
+                let same = match (base, &run2.out) {
+                    (Out::Ok(a), Out::Ok(c)) => a == c,
+                    (Out::Err(_), Out::Err(_)) => true,
+                    _ => false,
+                };
+                if !same {
+                    let spec2 = sdec::decode(&b2, o);
+                    let spec_same = matches!((&spec.result, &spec2.result), (Ok(_), Ok(_)) | (Err(_), Err(_)));
+                    if !spec_same {
+                        ctx.rep.bucket("selfcheck.care_mask_unsound");
+                        break;
+                    }
+                    ctx.violate(
+                        format!("C05:interference:field-sweep:{}-to-{}", base.class(), run2.out.class()),
+                        format!("setting the two octets at offset {} (consulted by no specified field) to {:#06x} changed the result: {} gives {}, {} gives {}", at, v, crate::report::hex(b), out_str(base), crate::report::hex(&b2), out_str(&run2.out)),
+                        J::obj(vec![("input_hex", J::hex(b)), ("changed_hex", J::hex(&b2)), ("offset", J::U(at as u64)), ("options", J::s(opts_str(Some(o))))]),
+                    );
+                    break;
+                }
+            }
+        }
+    }
     for _ in 0..3 {
         let mut b2 = b.to_vec();
         let k = 1 + ctx.rng.below(3);
